@@ -450,7 +450,7 @@ def main(tier, seed):
     csrc = [c['src'] for c in corpus]
     ctx.bump('corpus-programs', len(csrc))
 
-    ngen = 40 if quick else 240
+    ngen = 40 if quick else 160
     gens = [G.generate(i) for i in range(ngen)]
     gbase = [G.render(lines, G.Style()) for lines, _ in gens]
     for _, kinds in gens:
@@ -459,7 +459,7 @@ def main(tier, seed):
     ctx.bump('generated-programs', ngen)
 
     # ---- style variants of generated programs
-    nstyle = 3 if quick else 8
+    nstyle = 3 if quick else 6
     style_cases = []
     for i, (lines, _) in enumerate(gens):
         for j in range(nstyle):
@@ -546,7 +546,7 @@ def main(tier, seed):
                     f'canon in the model')
 
     # ---- suite rewrite (token-level compositions on real texts)
-    nvar = 1 if quick else 6
+    nvar = 1 if quick else 4
     if want('rewrite'):
         accepted = [t for t in csrc]          # rejected programs stay in: verdict must not change
         base_texts = accepted + gbase
